@@ -147,8 +147,8 @@ impl Property for DrcpProp {
     }
     fn cases(&self, tier: Tier) -> u64 {
         match tier {
-            Tier::Quick => 300_000,
-            Tier::Thorough => 6_000_000,
+            Tier::Quick => 600_000,
+            Tier::Thorough => 10_000_000,
         }
     }
     fn floors(&self, _tier: Tier) -> Vec<(&'static str, f64)> {
